@@ -1071,6 +1071,14 @@ pub fn cases(tier: Tier) -> Vec<Case> {
             // (name sorting before / after: the referenced value may or may not be linked yet)
             add("named-number", "INTEGER", &format!("Nn ::= INTEGER {{ one(1), minus(-7), big(70000) }}\naav Nn ::= {n}"), "aav".into(), Val::Int(v.into()), "reference-to-value-given-by-named-number".into());
         }
+        // ... while the module also defines a value with the name of that named number (X.680 19.10: inside the
+        // value notation of Nn the identifier is the named number; the other value must not capture it)
+        for (n, v) in [("one", "1"), ("big", "70000")] {
+            for holder in ["aav", "zzv"] {
+                add("named-number", "INTEGER", &format!("Nn ::= INTEGER {{ one(1), minus(-7), big(70000) }}\n{n} INTEGER ::= 99\n{holder} Nn ::= {n}"), holder.into(), Val::Int(v.into()), "reference-to-value-given-by-named-number|decoy-value".into());
+                add("named-number", "Nn", &format!("Nn ::= INTEGER {{ one(1), minus(-7), big(70000) }}\n{n} INTEGER ::= 99"), n.into(), Val::Int(v.into()), "named-number|decoy-value".into());
+            }
+        }
         // ---- booleans / null
         add("bool", "BOOLEAN", "", "TRUE".into(), Val::Bool(true), "true".into());
         add("bool", "BOOLEAN", "", "FALSE".into(), Val::Bool(false), "false".into());
